@@ -24,9 +24,9 @@ func genC16(seed uint64, tier string, idx int) *Plan {
 	}
 	sparse := 0
 	if holes == 0 && g.r.chance(1) {
-		sparse = g.r.pick(65537, 70000, 131080, 200000, 300000) // missing stretches longer than 64 KiB
+		sparse = g.r.pick(65537, 70000, 131080, 300000, 0x7fffff00, 0x80000400, 0x90000100, 0xfffff000) // missing stretches longer than 64 KiB, offsets beyond 2 GiB
 	}
-	g.genUpload(ci, attOpts{maxFiles: 3, maxChunks: mc, chunkMax: cm, withhold: sparse == 0, grouped: g.r.chance(40), holes: holes, sparse: sparse})
+	g.genUpload(ci, attOpts{maxFiles: 3, maxChunks: mc, chunkMax: cm, withhold: sparse == 0, grouped: g.r.chance(40), holes: holes, sparse: sparse, second: g.r.chance(12)})
 	p.Sched = g.sched()
 	p.MaxStep = 300000
 	return p
@@ -76,13 +76,13 @@ func checkC16(r *Result) []Violation {
 					got = append(got, ivl{u.Off, u.Off + len(u.Body)})
 				}
 			}
-			want := missingRanges(len(f.Data), got)
+			want := missingRanges(f.size(), got)
 			if len(want) > 255 {
 				continue // more gaps than the one-byte count can carry: outside the property's domain
 			}
 			if len(want) == 0 {
 				if b.Result != 0 || len(b.Ranges) != 0 {
-					bad("retransmit_though_complete", fmt.Sprintf("conn %d: every byte of %q (%d) had been received, but the 0x9212 says result=%d ranges=%v", ci, f.Name, len(f.Data), b.Result, b.Ranges), c.ev.Step)
+					bad("retransmit_though_complete", fmt.Sprintf("conn %d: every byte of %q (%d) had been received, but the 0x9212 says result=%d ranges=%v", ci, f.Name, f.size(), b.Result, b.Ranges), c.ev.Step)
 					return vs
 				}
 				continue
@@ -92,7 +92,7 @@ func checkC16(r *Result) []Violation {
 				return vs
 			}
 			if fmt.Sprint(b.Ranges) != fmt.Sprint(want) {
-				bad("wrong_ranges", fmt.Sprintf("conn %d: 0x9212 for %q (%d bytes) lists %v, the maximal missing ranges are %v", ci, f.Name, len(f.Data), b.Ranges, want), c.ev.Step)
+				bad("wrong_ranges", fmt.Sprintf("conn %d: 0x9212 for %q (%d bytes) lists %v, the maximal missing ranges are %v", ci, f.Name, f.size(), b.Ranges, want), c.ev.Step)
 				return vs
 			}
 		}
